@@ -544,7 +544,11 @@ def rules(tier):
             # create_guesses hands the limit on unchanged
             ('C09.R12', _shared_rule('plumbing', 'generator_glue')),
             # mutation sweep: break -> continue at the limit test of CrackingSession.run
-            ('C09.R13', _shared_rule('plumbing', 'limit_exhausted_leaves'))]
+            ('C09.R13', _shared_rule('plumbing', 'limit_exhausted_leaves')),
+            # C09-ea: the count of the last sub-tree returned in place of the running total when the limit runs out
+            ('C09.R14', _shared_rule('c04', 'r4_count_write_pairing')),
+            # C17-eb idea: the output point re-bound
+            ('C09.R15', _shared_rule('plumbing', 'who_may'))]
 
 
 META = {
